@@ -38,7 +38,7 @@ scratch worktree — nothing of `/verif`. Each agent delivered `patch.diff`, a d
 (`zz_seeded_demo_test.go`, failing with the change and passing without) and `NOTES.md`; each was
 re-confirmed with `tools/confirm_seeded.sh` before it was kept.
 """)
-for title, prefix in (("Round A (agents, one per property)", "A-"), ("Round B (agents, different mechanism)", "B-")):
+for title, prefix in (("Round A (agents, one per property)", "A-"), ("Round B (agents, different mechanism)", "B-"), ("Round C (agents, a third mechanism)", "C-")):
     rows = load(prefix)
     caught = sum(1 for _, m in rows if m.get("result", "").startswith("caught as delivered"))
     L.append("## %s — %d changes, %d caught by the quick tier as delivered, %d after strengthening the check\n" % (title, len(rows), caught, len(rows) - caught))
@@ -69,4 +69,4 @@ L.append("""
   B-C08 / B-C10 applied (1 of 2 runs); both pass when re-run and pass 3/3 for their authors.
 """)
 open(os.path.join(S, "README.md"), "w").write("\n".join(L))
-print("seeded/README.md written:", sum(len(load(p)) for p in ("A-", "B-", "revert-", "M")), "entries")
+print("seeded/README.md written:", sum(len(load(p)) for p in ("A-", "B-", "C-", "revert-", "M")), "entries")
